@@ -253,17 +253,21 @@ def run_scenario(spec):
             inp["cost"] = frac_str(c)
         before = snapshot(sch)
         prev_dec = sch._active_trials[str(tid)].trial_decision if str(tid) in sch._active_trials else None
+        def pasha_eps():
+            # value of `epsilon` after `_update_epsilon()` (an input of the model, DESIGN C04-R)
+            if ctor["type"] == "pasha" and str(tid) in sch._active_trials:
+                b = int(sch._active_trials[str(tid)].bracket)
+                rsys = sch.terminator._rung_systems[b if ctor.get("rung_system_per_bracket") else 0]
+                inp["eps"] = frac_str(float(rsys.epsilon))
         try:
             d = sch.on_trial_result(trials[tid], dict(res))
         except Exception as e:  # noqa
+            pasha_eps()
             lines.append((inp, {"err": errname(e)}))
             events.append({"ev": "result-error", "trial": tid, "resource": r, "err": errname(e)})
             return None
         inp["hint"] = d == SchedulerDecision.CONTINUE
-        if ctor["type"] == "pasha":
-            b = int(sch._active_trials[str(tid)].bracket)
-            rsys = sch.terminator._rung_systems[b if ctor.get("rung_system_per_bracket") else 0]
-            inp["eps"] = frac_str(float(rsys.epsilon))
+        pasha_eps()
         out = {"decision": d}
         if real_searcher is None:
             out["calls"] = searcher.take()
